@@ -106,7 +106,7 @@ def compile_driver(driver_cpp_text, repo_sources, sanitize=True, opt='-O1'):
     """compile a generated C++ driver together with /repo sources -> executable path (cached)"""
     srcs = [repo_path(s) for s in repo_sources]
     flags = ['-std=c++11', opt, '-g'] + (['-fsanitize=address,undefined', '-fno-omit-frame-pointer',
-                                          '-fno-sanitize-recover=undefined', '-fno-sanitize=nonnull-attribute'] if sanitize else []) + DEFS
+                                          '-fno-sanitize-recover=undefined', '-fno-sanitize=nonnull-attribute', '-fno-sanitize=vptr'] if sanitize else []) + DEFS
     h = hashlib.sha256(driver_cpp_text.encode()).hexdigest()[:16]
     os.makedirs(CACHE, exist_ok=True)
     out = os.path.join(CACHE, 'drv_%s_%s' % (h, _key(srcs, flags)))
@@ -156,7 +156,7 @@ def compile_objs_driver(driver_cpp_text, repo_sources, sanitize=True, opt='-O1')
     if alloc not in srcs:
         srcs.append(alloc)
     flags = ['-std=c++11', opt, '-g'] + (['-fsanitize=address,undefined', '-fno-omit-frame-pointer',
-                                          '-fno-sanitize-recover=undefined', '-fno-sanitize=nonnull-attribute'] if sanitize else []) + DEFS
+                                          '-fno-sanitize-recover=undefined', '-fno-sanitize=nonnull-attribute', '-fno-sanitize=vptr'] if sanitize else []) + DEFS
     os.makedirs(CACHE, exist_ok=True)
     h = hashlib.sha256(driver_cpp_text.encode()).hexdigest()[:16]
     out = os.path.join(CACHE, 'drvo_%s_%s' % (h, _key(srcs, flags)))
